@@ -19,6 +19,9 @@ func main() {
 			sw = 3
 		}
 		sc := mcx.Scenario{Name: p.Name(), Body: p.Body(), Cfg: mc.Config{GOMAXPROCS: p.Procs}, Bound: 3, ThoroughBound: 4, SwitchBound: sw, Family: "par/" + p.Variant, MaxTime: 3 * time.Minute}
+		if p.N >= 1000 {
+			sc.Cfg.MaxSteps = 400000
+		}
 		if p.N >= 17 {
 			sc.Bound, sc.ThoroughBound, sc.SwitchBound = 0, 1, 1
 		} else if p.N >= 5 {
